@@ -30,9 +30,9 @@ Proof.
 Qed.
 
 Section Static.
-  Variables (lim : limits) (L : N).
+  Variables (v : variant) (lim : limits) (L : N).
+  Hypothesis Hv : is_repaired v.
   Hypothesis HL : l_loop lim = Some L.
-  Let v := repaired.
 
   Lemma linv_ext f : linv L f -> linv L (f_ext f).
   Proof. intros [? ?]; split; auto. Qed.
@@ -72,13 +72,13 @@ Section Static.
     - (* For *) intros n b IH f s s' HI H. rewrite maxprod_eq. rewrite exec_eq in H.
       destruct (n =? 0)%N eqn:En; [lia|]. gstep H. gstep H.
       destruct (to_nat_S n En) as [m Em]. rewrite Em in H. apply iter_first in H. destruct H as (s1 & H).
-      apply block_ran in H. pose proof (linv_for lim L HL f n HI G) as HI'.
+      apply block_ran in H. pose proof (linv_for v lim L Hv HL f n HI G) as HI'.
       specialize (IH (f_for f n) HI' H). destruct HI' as [_ Ht]. simpl in *. lia.
     - (* Tablerow *) intros n b IH f s s' HI H. rewrite maxprod_eq. rewrite exec_eq in H.
       destruct (n =? 0)%N eqn:En; [lia|]. gstep H. step H. gstep H. step H.
       destruct (to_nat_S n En) as [m Em]. rewrite Em in H1. apply iter_first in H1. destruct H1 as (s3 & H1).
       step H1. step H1. apply block_ran in H3.
-      pose proof (linv_scale lim L HL (f_ext f) n (linv_ext f HI) G) as HI'.
+      pose proof (linv_scale v lim L Hv HL (f_ext f) n (linv_ext f HI) G) as HI'.
       specialize (IH _ HI' H3). destruct HI' as [_ Ht]. simpl in *. lia.
     - (* Include *) intros b IH f s s' HI H. rewrite maxprod_eq. rewrite exec_eq in H.
       gstep H. gstep H. gstep H. apply partial_ran in H.
@@ -87,17 +87,22 @@ Section Static.
       destruct (n =? 0)%N eqn:En; [lia|]. gstep H. gstep H. gstep H. gstep H.
       destruct (to_nat_S n En) as [m Em]. rewrite Em in H. apply iter_first in H. destruct H as (s1 & H).
       apply partial_ran in H.
-      pose proof (linv_scale lim L HL (f_ext f) n (linv_ext f HI) G2) as HI'.
+      pose proof (linv_scale v lim L Hv HL (f_ext f) n (linv_ext f HI) G2) as HI'.
       specialize (IH _ (linv_ext _ HI') H). destruct HI' as [_ Ht]. simpl in *. lia.
     - (* Render *) intros b IH f s s' HI H. rewrite maxprod_eq. rewrite exec_eq in H.
       gstep H. gstep H. apply in_ctx_ok in H. destruct H as (s1 & H & _). apply partial_ran in H.
       apply (IH (f_ext (f_copy f (sum_sizes (s_locals s))))); auto using linv_ext, linv_copy.
     - (* RenderFor *) intros n b IH f s s' HI H. rewrite maxprod_eq. rewrite exec_eq in H.
       destruct (n =? 0)%N eqn:En; [lia|]. gstep H. gstep H. cbv zeta in H. gstep H.
-      apply in_ctx_ok in H. destruct H as (s1 & H & _).
-      destruct (to_nat_S n En) as [m Em]. rewrite Em in H. apply iter_first in H. destruct H as (s3 & H).
-      apply partial_ran in H.
-      pose proof (linv_scale lim L HL _ n (linv_copy f (sum_sizes (s_locals s)) HI) G1) as HI'.
+      destruct (to_nat_S n En) as [m Em]. rewrite Em in H.
+      assert (Hr : ran (exec_list v lim b (f_ext (f_scale v (f_copy f (sum_sizes (s_locals s))) n)))).
+      { destruct (v_item v).
+        - apply iter_first in H. destruct H as (s3 & H). apply in_ctx_ok in H. destruct H as (s4 & H & _).
+          apply partial_ran in H. exact H.
+        - apply in_ctx_ok in H. destruct H as (s1 & H & _). apply iter_first in H. destruct H as (s3 & H).
+          apply partial_ran in H. exact H. }
+      clear H. rename Hr into H.
+      pose proof (linv_scale v lim L Hv HL _ n (linv_copy f (sum_sizes (s_locals s)) HI) G1) as HI'.
       specialize (IH _ (linv_ext _ HI') H). destruct HI' as [_ Ht]. simpl in *. lia.
     - (* Call *) intros b IH f s s' HI H. rewrite maxprod_eq. rewrite exec_eq in H.
       gstep H. apply in_ctx_ok in H. destruct H as (s1 & H & _). apply block_ran in H.
@@ -152,9 +157,9 @@ Lemma blame_is_limit a b e : blame a b e -> is_limit e = true.
 Proof. destruct e; simpl; intro H; try reflexivity. destruct H. Qed.
 
 Section Sim.
-  Variables (a b : limits).
+  Variables (v : variant) (a b : limits).
+  Hypothesis Hv : is_repaired v.
   Hypothesis Hle : lim_le a b.
-  Let v := repaired.
 
   Definition le_run (m m' : M) : Prop :=
     forall s, match m s with
@@ -228,7 +233,7 @@ Section Sim.
   Lemma le_assign f x val : le_run (m_assign v a f x val) (m_assign v b f x val).
   Proof.
     intro s. unfold m_assign. destruct (s_sizes s) as [|z rest]; [reflexivity|].
-    unfold v. rewrite !ns_limit_repaired.
+    rewrite !(ns_limit_repaired v _ Hv).
     destruct Hle as (_ & _ & Hn & _). unfold opt_le in Hn.
     destruct (l_ns a) as [La|] eqn:Ea, (l_ns b) as [Lb|] eqn:Eb; try contradiction; simpl.
     - destruct (_ >? La) eqn:E1, (_ >? Lb) eqn:E2; simpl; auto; try lia.
@@ -244,7 +249,7 @@ Section Sim.
 
   Lemma le_loop_guard f n : le_run (guard (loop_exceeded v a f n) XLoop) (guard (loop_exceeded v b f n) XLoop).
   Proof.
-    unfold loop_exceeded, v. rewrite !loop_limit_repaired.
+    unfold loop_exceeded. rewrite !(loop_limit_repaired v _ Hv).
     destruct Hle as (Hl & _). unfold opt_le in Hl.
     destruct (l_loop a) as [La|] eqn:Ea, (l_loop b) as [Lb|] eqn:Eb; try contradiction.
     - apply le_guard; [lia|]. intros H1 H2. simpl. rewrite Ea, Eb. intro Heq. inversion Heq. lia.
@@ -308,11 +313,17 @@ Section Sim.
       intro s0. apply le_in_ctx. apply sim_partial; exact IH.
     - intros n body IH f. rewrite !exec_eq.
       apply le_seq; [apply le_nest_guard|]. apply le_seq; [apply le_copy_guard|]. cbv zeta.
-      apply (le_fun (fun s0 => seq (guard (loop_exceeded v a (f_copy f (sum_sizes (s_locals s0))) n) XLoop)
-                                   (in_ctx (iter 1 (N.to_nat n) (fun _ => partial v a body (f_scale v (f_copy f (sum_sizes (s_locals s0))) n)))))
-                    (fun s0 => seq (guard (loop_exceeded v b (f_copy f (sum_sizes (s_locals s0))) n) XLoop)
-                                   (in_ctx (iter 1 (N.to_nat n) (fun _ => partial v b body (f_scale v (f_copy f (sum_sizes (s_locals s0))) n)))))).
-      intro s0. apply le_seq; [apply le_loop_guard|]. apply le_in_ctx. apply le_iter. intro k. apply sim_partial; exact IH.
+      destruct (v_item v).
+      + apply (le_fun (fun s0 => seq (guard (loop_exceeded v a (f_copy f (sum_sizes (s_locals s0))) n) XLoop)
+                                     (iter 1 (N.to_nat n) (fun _ => in_ctx (partial v a body (f_scale v (f_copy f (sum_sizes (s_locals s0))) n)))))
+                      (fun s0 => seq (guard (loop_exceeded v b (f_copy f (sum_sizes (s_locals s0))) n) XLoop)
+                                     (iter 1 (N.to_nat n) (fun _ => in_ctx (partial v b body (f_scale v (f_copy f (sum_sizes (s_locals s0))) n)))))).
+        intro s0. apply le_seq; [apply le_loop_guard|]. apply le_iter. intro k. apply le_in_ctx. apply sim_partial; exact IH.
+      + apply (le_fun (fun s0 => seq (guard (loop_exceeded v a (f_copy f (sum_sizes (s_locals s0))) n) XLoop)
+                                     (in_ctx (iter 1 (N.to_nat n) (fun _ => partial v a body (f_scale v (f_copy f (sum_sizes (s_locals s0))) n)))))
+                      (fun s0 => seq (guard (loop_exceeded v b (f_copy f (sum_sizes (s_locals s0))) n) XLoop)
+                                     (in_ctx (iter 1 (N.to_nat n) (fun _ => partial v b body (f_scale v (f_copy f (sum_sizes (s_locals s0))) n)))))).
+        intro s0. apply le_seq; [apply le_loop_guard|]. apply le_in_ctx. apply le_iter. intro k. apply sim_partial; exact IH.
     - intros body IH f. rewrite !exec_eq.
       apply le_seq; [apply le_copy_guard|].
       apply (le_fun (fun s0 => in_ctx (block v a body (f_copy f (sum_sizes (s_locals s0)))))
@@ -370,14 +381,18 @@ Qed.
 Lemma lim_le_refl a : lim_le a a.
 Proof. unfold lim_le, opt_le. destruct (l_loop a), (l_out a), (l_ns a); repeat split; auto; lia. Qed.
 
+Section Consequences.
+  Variable v : variant.
+  Hypothesis Hv : is_repaired v.
+
 (* monotone: success carries over, with the identical final state (hence output), to any pointwise larger limits *)
 Theorem run_monotone a b main sizes s :
-  lim_le a b -> run_prog repaired a main sizes = LOk s -> run_prog repaired b main sizes = LOk s.
-Proof. intros Hle H. pose proof (sim_run a b Hle main sizes) as S. rewrite H in S. exact S. Qed.
+  lim_le a b -> run_prog v a main sizes = LOk s -> run_prog v b main sizes = LOk s.
+Proof. intros Hle H. pose proof (sim_run v a b Hv Hle main sizes) as S. rewrite H in S. exact S. Qed.
 
 (* abort only: ANY two configurations under which the render completes give the same final state *)
 Theorem run_abort_only a b main sizes s s' :
-  run_prog repaired a main sizes = LOk s -> run_prog repaired b main sizes = LOk s' -> s = s'.
+  run_prog v a main sizes = LOk s -> run_prog v b main sizes = LOk s' -> s = s'.
 Proof.
   intros Ha Hb.
   apply (run_monotone a (lim_join a b) main sizes s (lim_le_join_l a b)) in Ha.
@@ -387,19 +402,19 @@ Qed.
 
 (* an error under limits a, when the render completes under limits b, is a resource-limit class *)
 Theorem run_error_class a b main sizes e s :
-  run_prog repaired a main sizes = LErr e -> run_prog repaired b main sizes = LOk s -> is_limit e = true.
+  run_prog v a main sizes = LErr e -> run_prog v b main sizes = LOk s -> is_limit e = true.
 Proof.
   intros Ha Hb.
   apply (run_monotone b (lim_join a b) main sizes s (lim_le_join_r a b)) in Hb.
-  pose proof (sim_run a (lim_join a b) (lim_le_join_l a b) main sizes) as S. rewrite Ha in S.
+  pose proof (sim_run v a (lim_join a b) Hv (lim_le_join_l a b) main sizes) as S. rewrite Ha in S.
   destruct S as [S|S]; [congruence|]. eapply blame_is_limit; exact S.
 Qed.
 
 (* ... and, for comparable limits, it is the class of a limit that was actually made larger *)
 Theorem run_error_blame a b main sizes e s :
-  lim_le a b -> run_prog repaired a main sizes = LErr e -> run_prog repaired b main sizes = LOk s -> blame a b e.
+  lim_le a b -> run_prog v a main sizes = LErr e -> run_prog v b main sizes = LOk s -> blame a b e.
 Proof.
-  intros Hle Ha Hb. pose proof (sim_run a b Hle main sizes) as S. rewrite Ha in S.
+  intros Hle Ha Hb. pose proof (sim_run v a b Hv Hle main sizes) as S. rewrite Ha in S.
   destruct S as [S|S]; [congruence|exact S].
 Qed.
 
@@ -417,14 +432,14 @@ Proof. unfold lim_le, with_out, opt_le; simpl. destruct (l_loop a), (l_out a), (
    the render under the loop limit L raises LoopIterationLimitError *)
 Theorem run_loop_raises a L main sizes s :
   l_loop a = Some L -> (1 <= L)%N ->
-  run_prog repaired (with_loop a None) main sizes = LOk s ->
+  run_prog v (with_loop a None) main sizes = LOk s ->
   (L < maxprod_list 1 main)%N ->
-  run_prog repaired a main sizes = LErr XLoop.
+  run_prog v a main sizes = LErr XLoop.
 Proof.
   intros HL H1 Hu Hgt.
-  pose proof (sim_run a (with_loop a None) (lim_le_with_loop a) main sizes) as S.
-  destruct (run_prog repaired a main sizes) as [s'|e|] eqn:E.
-  - apply (run_maxprod a L HL main sizes s' H1) in E. lia.
+  pose proof (sim_run v a (with_loop a None) Hv (lim_le_with_loop a) main sizes) as S.
+  destruct (run_prog v a main sizes) as [s'|e|] eqn:E.
+  - apply (run_maxprod v a L Hv HL main sizes s' H1) in E. lia.
   - destruct S as [S|S]; [congruence|]. destruct e; simpl in S; try congruence; try (exfalso; apply S; reflexivity); try destruct S.
   - congruence.
 Qed.
@@ -433,28 +448,29 @@ Qed.
    output limit L raises OutputStreamLimitError *)
 Theorem run_out_raises a L main sizes s :
   l_out a = Some L -> 0 <= L ->
-  run_prog repaired (with_out a None) main sizes = LOk s ->
+  run_prog v (with_out a None) main sizes = LOk s ->
   L < utf8_bytes (buf_text (s_buf s)) ->
-  run_prog repaired a main sizes = LErr XOutput.
+  run_prog v a main sizes = LErr XOutput.
 Proof.
   intros HL H0 Hu Hgt.
-  pose proof (sim_run a (with_out a None) (lim_le_with_out a) main sizes) as S.
-  destruct (run_prog repaired a main sizes) as [s'|e|] eqn:E.
+  pose proof (sim_run v a (with_out a None) Hv (lim_le_with_out a) main sizes) as S.
+  destruct (run_prog v a main sizes) as [s'|e|] eqn:E.
   - assert (s' = s) by congruence. subst s'.
     assert (Hp : forall L0, l_out a = Some L0 -> 0 <= L0) by (intros L0 H; rewrite HL in H; inversion H; subst; exact H0).
-    pose proof (run_out_bound repaired a Hp main sizes s L HL E). lia.
+    pose proof (run_out_bound v a Hp main sizes s L HL E). lia.
   - destruct S as [S|S]; [congruence|]. destruct e; simpl in S; try congruence; try (exfalso; apply S; reflexivity); try destruct S.
   - congruence.
 Qed.
+End Consequences.
 
 (* ------------------------------------------------------------------ (c) no false alarms of the loop limit *)
 (* if no reached nest multiplies to more than L, the loop limit L changes nothing at all: the run is the run
    without a loop limit (same result, same error, same fuel exhaustion) *)
 Section NoFalseAlarm.
-  Variables (a : limits) (L : N).
+  Variables (v : variant) (a : limits) (L : N).
+  Hypothesis Hv : is_repaired v.
   Hypothesis HL : l_loop a = Some L.
   Let b := with_loop a None.
-  Let v := repaired.
 
   Definition same (m m' : M) : Prop := forall s, m s = m' s.
 
@@ -473,11 +489,11 @@ Section NoFalseAlarm.
 
   Lemma loop_guard_passes f n : linv L f -> (f_tp f * n <= L)%N -> loop_exceeded v a f n = false.
   Proof.
-    intros [Hb _] Hn. unfold loop_exceeded, v. rewrite loop_limit_repaired, HL.
+    intros [Hb _] Hn. unfold loop_exceeded. rewrite (loop_limit_repaired v a Hv), HL.
     replace (n * f_carry f)%N with (f_carry f * n)%N by lia. rewrite fold_mul_scale. fold (bk f). rewrite Hb. lia.
   Qed.
   Lemma loop_guard_off f n : loop_exceeded v b f n = false.
-  Proof. reflexivity. Qed.
+  Proof. unfold loop_exceeded. rewrite (loop_limit_repaired v b Hv). reflexivity. Qed.
 
   Lemma same_loop_guard f n : linv L f -> (f_tp f * n <= L)%N ->
     same (guard (loop_exceeded v a f n) XLoop) (guard (loop_exceeded v b f n) XLoop).
@@ -513,7 +529,7 @@ Section NoFalseAlarm.
       assert (Hn : (f_tp f * n <= L)%N) by lia.
       apply same_seq; [apply same_loop_guard; auto|]. apply same_seq; [apply same_refl|].
       apply same_iter. intro k. apply nf_block; [exact IH| |simpl; lia].
-      apply (linv_for a L HL f n HI). apply loop_guard_passes; auto.
+      apply (linv_for v a L Hv HL f n HI). apply loop_guard_passes; auto.
     - intros n body IH f HI Hm. rewrite maxprod_eq in Hm. rewrite !exec_eq.
       destruct (n =? 0)%N eqn:En.
       + assert (n = 0%N) by lia. subst n. simpl.
@@ -523,7 +539,7 @@ Section NoFalseAlarm.
         apply same_seq; [apply same_refl|]. apply same_seq; [|apply same_refl].
         apply same_iter. intro k. apply same_seq; [apply same_refl|]. apply same_seq; [|apply same_refl].
         apply nf_block; [exact IH| |simpl; lia].
-        apply (linv_scale a L HL (f_ext f) n (linv_ext L f HI)). apply (loop_guard_passes f n HI Hn).
+        apply (linv_scale v a L Hv HL (f_ext f) n (linv_ext L f HI)). apply (loop_guard_passes f n HI Hn).
     - intros body IH f HI Hm. rewrite maxprod_eq in Hm. rewrite !exec_eq.
       apply same_seq; [apply same_refl|]. apply same_seq; [apply same_refl|]. apply same_seq; [apply same_refl|].
       apply nf_partial; [exact IH|apply linv_ext; exact HI|exact Hm].
@@ -535,7 +551,7 @@ Section NoFalseAlarm.
       + assert (Hn : (f_tp f * n <= L)%N) by lia.
         apply same_seq; [apply (same_loop_guard (f_ext f)); [apply linv_ext; exact HI|exact Hn]|].
         apply same_iter. intro k. apply nf_partial; [exact IH| |simpl; lia].
-        apply (linv_scale a L HL (f_ext f) n (linv_ext L f HI)). apply (loop_guard_passes f n HI Hn).
+        apply (linv_scale v a L Hv HL (f_ext f) n (linv_ext L f HI)). apply (loop_guard_passes f n HI Hn).
     - intros body IH f HI Hm. rewrite maxprod_eq in Hm. rewrite !exec_eq.
       apply same_seq; [apply same_refl|]. apply same_seq; [apply same_refl|].
       intro s. apply same_in_ctx. apply nf_partial; [exact IH|apply linv_copy; exact HI|exact Hm].
@@ -548,8 +564,12 @@ Section NoFalseAlarm.
         apply same_seq; [apply (same_loop_guard fc); [exact HIc|simpl; lia]|]. apply same_refl.
       + assert (Hn : (f_tp f * n <= L)%N) by lia.
         apply same_seq; [apply (same_loop_guard fc); [exact HIc|exact Hn]|].
-        apply same_in_ctx. apply same_iter. intro k. apply nf_partial; [exact IH| |simpl; lia].
-        apply (linv_scale a L HL fc n HIc). apply (loop_guard_passes fc n HIc Hn).
+        assert (Hp : same (partial v a body (f_scale v fc n)) (partial v b body (f_scale v fc n))).
+        { apply nf_partial; [exact IH| |simpl; lia].
+          apply (linv_scale v a L Hv HL fc n HIc). apply (loop_guard_passes fc n HIc Hn). }
+        destruct (v_item v).
+        * apply same_iter. intro k. apply same_in_ctx. exact Hp.
+        * apply same_in_ctx. apply same_iter. intro k. exact Hp.
     - intros body IH f HI Hm. rewrite maxprod_eq in Hm. rewrite !exec_eq.
       apply same_seq; [apply same_refl|].
       intro s. apply same_in_ctx. apply nf_block; [exact IH|apply linv_copy; exact HI|exact Hm].
